@@ -147,9 +147,13 @@ def run_points(spec):
     events = []
     XR = rows(X)
     # pareto_efficient
-    mask = [bool(b) for b in ndp.pareto_efficient(X.copy())]
-    lines.append(({"op": "pareto", "X": XR}, {"mask": mask}))
-    events.append({"ev": "pareto", "P": P, "mask": mask})
+    try:
+        mask = [bool(b) for b in ndp.pareto_efficient(X.copy())]
+        lines.append(({"op": "pareto", "X": XR}, {"mask": mask}))
+        events.append({"ev": "pareto", "P": P, "mask": mask})
+    except Exception as e:  # noqa
+        lines.append(({"op": "pareto", "X": XR}, {"err": errname(e)}))
+        events.append({"ev": "pareto-error", "P": P, "err": errname(e)})
     with EpsRecorder() as rec:
         for dim, mx, flat in spec["combos"]:
             inp = {"op": "nds", "X": XR, "max_items": mx, "flatten": flat}
@@ -177,8 +181,11 @@ def run_points(spec):
                 events.append({"ev": "priority-error", "P": P, "dim": dim, "max_num_samples": mx, "err": errname(e)})
     if n > 0 and d > 0:
         fd = rng.randrange(d)
-        p = mop.FixedObjectivePriority(dim=fd)(X.copy())
-        lines.append(({"op": "fixed", "X": XR, "dim": fd}, {"priorities": [frac_str(float(v)) for v in p]}))
+        try:
+            p = mop.FixedObjectivePriority(dim=fd)(X.copy())
+            lines.append(({"op": "fixed", "X": XR, "dim": fd}, {"priorities": [frac_str(float(v)) for v in p]}))
+        except Exception as e:  # noqa
+            lines.append(({"op": "fixed", "X": XR, "dim": fd}, {"err": errname(e)}))
     return {"lines": lines, "events": events}
 
 
@@ -294,7 +301,8 @@ def run_moasha(spec):
             inp["eps"] = rec.take()
             log.take()
             lines.append((inp, {"err": errname(e)}))
-            events.append({"ev": op + "-error", "trial": tid, "iter": r, "err": errname(e)})
+            events.append({"ev": op + "-error", "trial": tid, "iter": r, "err": errname(e),
+                           "untracked": tid not in dict((x, y) for x, y in before["trial_info"])})
             return "ERR"
         calls = log.take()
         inp["eps"] = rec.take()
